@@ -187,3 +187,13 @@ func (s *Sim) popEvent(e *event) {
 		s.pop()
 	}
 }
+
+// Skew returns the total clock-tick time injected so far in this run.
+//
+//go:norace
+func Skew() time.Duration {
+	if S == nil {
+		return 0
+	}
+	return time.Duration(S.skew)
+}
